@@ -51,7 +51,7 @@ NodeIdx(p, t) == CHOOSE i \in DOMAIN p.nodes :
                    p.nodes[i].title = t /\ \A j \in 1..(i - 1) : p.nodes[j].title # t
 Probes(p) == {f \in DOMAIN p.funcs : p.funcs[f] \in {"id", "boom", "noret"}}
 
-NoCmd == [st |-> "none", err |-> FALSE]
+NoCmd == [st |-> "none", err |-> FALSE, arg |-> Unset]
 NoOut == [k |-> "none"]
 
 \* ---------------------------------------------------------------- initial state
@@ -195,6 +195,7 @@ EvalElems(elems, i, env, acc) ==
 \* command kinds (p.cmds[name]):
 \*   "done"  handler complete on return, no error    "fail"  complete on return with an error
 \*   "pend"  handler not complete on return: completion is an environment action
+\*   "pendq" the built-in wait: like "pend", started by the runner itself
 \*   anything else / absent: not registered -> error
 ExecCmd(p, s, stmt) ==
   LET r == EvalElems(stmt.elems, 1, Env(p, s), [vals |-> <<>>, log |-> <<>>]) IN
@@ -212,8 +213,14 @@ ExecCmd(p, s, stmt) ==
                    s2 == [s1 EXCEPT !.ccalls = Append(@, [name |-> name, args |-> args])]
                IN CASE kind = "done" -> s2
                     [] kind = "fail" -> Fault(s2, <<>>)
-                    [] kind = "pend" -> Yield([s2 EXCEPT !.cmd = [st |-> "run", err |-> FALSE]],
+                    [] kind = "pend" -> Yield([s2 EXCEPT !.cmd = [st |-> "run", err |-> FALSE, arg |-> Unset]],
                                               [k |-> "waiting"])
+                    \* the built-in <<wait n>>: pending, no host handler to log; the number
+                    \* of seconds is remembered (completion no earlier than n s after the start)
+                    [] kind = "pendq" ->
+                         IF Len(args) # 1 \/ ~IsNum(args[1]) THEN Fault(s1, <<>>)
+                         ELSE Yield([s1 EXCEPT !.cmd = [st |-> "run", err |-> FALSE, arg |-> args[1]]],
+                                    [k |-> "waiting"])
                     [] OTHER -> Fault(s1, <<>>)
 
 ExecCall(p, s, stmt) ==
